@@ -25,6 +25,10 @@ fn main() {
         usage();
     }
     let prop = args[1].clone();
+    if prop == "E2E-WORKER" {
+        engine::install_panic_hook();
+        std::process::exit(daemon::worker_main(&args[2..]));
+    }
     let mut tier = std::env::var("VERIF_TIER").unwrap_or_else(|_| "quick".into());
     let mut replay: Option<String> = None;
     let mut threads = std::thread::available_parallelism().map(|n| n.get()).unwrap_or(4).min(16);
@@ -61,7 +65,7 @@ fn main() {
     let code = match (prop.as_str(), &replay) {
         ("CORPUS", _) => {
             // seed corpora for the libFuzzer targets, written under /verif/target/fuzz-corpus
-            let base = std::path::PathBuf::from("/verif/target/fuzz-corpus");
+            let base = std::path::PathBuf::from(std::env::var("VERIF_FUZZ_CORPUS").unwrap_or_else(|_| "/verif/target/fuzz-corpus".into()));
             std::fs::create_dir_all(base.join("codec")).unwrap();
             std::fs::create_dir_all(base.join("host_ops")).unwrap();
             for i in 0..400u64 {
